@@ -147,3 +147,25 @@ theorem wuss2ct_nopk_nested' (ss : Bytes) (hnl : ∀ c ∈ ss, isAlpha c = false
     · cases h
 
 end EaselModel.Msa
+
+namespace EaselModel.Msa
+
+theorem map_nopseudo_id : ∀ (ss : Bytes), (∀ c ∈ ss, isAlpha c = false) → wussNopseudo ss = ss
+  | [], _ => rfl
+  | c :: ss, h => by
+    have hc := h c (by simp)
+    have ih := map_nopseudo_id ss (fun x hx => h x (by simp [hx]))
+    simp only [wussNopseudo, List.map_cons, nopseudoChar, hc, Bool.false_eq_true, if_false] at ih ⊢
+    rw [ih]
+
+theorem zipWith_overlay_id : ∀ (ss full : Bytes), (∀ c ∈ ss, isAlpha c = false) → ss.length = full.length →
+    List.zipWith (fun o t => if isAlpha o then o else t) ss full = full
+  | [], [], _, _ => rfl
+  | [], _ :: _, _, h => by simp at h
+  | _ :: _, [], _, h => by simp at h
+  | c :: ss, t :: full, h, hl => by
+    have hc := h c (by simp)
+    have ih := zipWith_overlay_id ss full (fun x hx => h x (by simp [hx])) (by simpa using hl)
+    simp [List.zipWith, hc, ih]
+
+end EaselModel.Msa
